@@ -87,6 +87,13 @@ VARIANTS = {
         {'body': '<?xml version="1.0"?>\r\n<input checked="${1}"/>\r\n<p>\xe9</p>'},
         {'body': '<?xml version="1.0"?>\r\n<input checked="${1}"/>\r\n<p>\xe9</p>', 'as_bytes': 'utf-8'}),
     'input-str-vs-bytes-html': ({'body': '<input checked="${1}"/>\r\n<p>\xe9</p>'}, {'body': '<input checked="${1}"/>\r\n<p>\xe9</p>', 'as_bytes': 'utf-8'}),
+    # file templates with very long names (the module name is built from the file name and the digest)
+    'long-file-name-edited': ({'file_name': 'report_' + 'x' * 150 + '.pt', 'body': '<p>version ONE ${v}</p>'},
+                              {'file_name': 'report_' + 'x' * 150 + '.pt', 'body': '<p>version TWO ${v}</p>'}),
+    'long-file-name-two-directories': ({'file_name': 'page_' + 'y' * 130 + '.pt', 'file_sub': 'site_a', 'body': '<p>site A ${v}</p>'},
+                                       {'file_name': 'page_' + 'y' * 130 + '.pt', 'file_sub': 'site_b', 'body': '<p>site B ${v}</p>'}),
+    'long-file-name-option': ({'file_name': 'form_' + 'z' * 160 + '.pt', 'body': SRC}, {'file_name': 'form_' + 'z' * 160 + '.pt', 'body': SRC, 'cfg': {'trim_attribute_space': True}}),
+    'file-name-edited': ({'file_name': 'short.pt', 'body': '<p>version ONE ${v}</p>'}, {'file_name': 'short.pt', 'body': '<p>version TWO ${v}</p>'}),
     'body-trailing-newline': ({'body': '<p>x ${v}</p>\n'}, {'body': '<p>x ${v}</p>'}),
     'extra_builtins': ({'body': '<p>${zz|0}</p>'}, {'body': '<p>${zz|0}</p>', 'cfg': {'extra_builtins': {'zz': 1}}}),
     'extra_builtins-names-concatenate': ({'body': '<p>${ab|"-"};${c|"-"};${a|"-"};${bc|"-"}</p>', 'cfg': {'extra_builtins': {'ab': 'AB', 'c': 'C'}}},
@@ -163,6 +170,9 @@ def layer_soundness(ctx, tmp):
         if idx % ctx.nshards != ctx.shard:
             continue
         a, b = (job(x) for x in VARIANTS[name])
+        for j in (a, b):
+            if j.get('file_name'):
+                j['file_dir'] = os.path.join(tmp, 'files_' + name, j.pop('file_sub', ''))
         ref_a = run_child([a])['results']
         ref_b = run_child([b])['results']
         if not ref_a or not ref_b:
@@ -237,6 +247,11 @@ def layer_crash(ctx, tmp):
         plans = [('audit', k) for k in range(1, n_audit + 1)] + [('line', k) for k in range(1, n_line + 1)]
         plans += [('raise-KeyboardInterrupt', k) for k in range(1, n_line + 1, 1 if not ctx.quick else 3)]
         plans += [('raise-MemoryError', k) for k in range(2, n_line + 1, 2 if not ctx.quick else 5)]
+        # a file-size limit reached while the module is stored (disk full / quota): limits from a few bytes up to the module size
+        size = max(len(x) for x in ref_files.values()) if ref_files else 4000
+        limits = sorted({1, 60, 1000, size // 3, size // 2, size - 1000, size - 1, size, size + 50} - {0}) if not ctx.quick else \
+            sorted({60, size // 2, size - 1, size + 50})
+        plans += [('fsize', k) for k in limits if k > 0]
         for inj, k in plans:
             item += 1
             if item % ctx.nshards != ctx.shard:
@@ -248,6 +263,11 @@ def layer_crash(ctx, tmp):
             elif inj == 'line':
                 r = run_child(jobs, d, {'C15_CRASH_LINE': str(k)})
                 died = r['rc'] == 97
+            elif inj == 'fsize':
+                r = run_child(jobs, d, {'C15_FSIZE': str(k)})
+                died = r['results'] != ref          # the writer was hit by the limit
+                if died:
+                    ctx.mon('file-size-limit-hit-while-storing')
             else:
                 r = run_child(jobs, d, {'C15_RAISE_LINE': '%d:%s' % (k, inj.split('-')[1])})
                 died = bool(r['results']) and str(r['results'][0]).startswith('RAISED')
